@@ -150,4 +150,84 @@ example :
             ⟨6, 0, { qos := 2, topic := [116], pktid := 6, payload := [3] }⟩] := by
   decide
 
+/-! ## (d) PUBREL and PUBREC -/
+
+/-- `releaseAll` hands the released entries on one by one, oldest first: for each
+entry exactly the outputs of `onPublish` of its stored content (on the state the
+previous hand-overs left). -/
+theorem C02_releaseAll (b : B) (e : QEntry) (l : List QEntry) :
+    releaseAll b [] = (b, []) ∧
+    releaseAll b (e :: l) =
+      ((releaseAll (onPublish b ⟨e.msg, false⟩).1 l).1,
+       (onPublish b ⟨e.msg, false⟩).2.2.1 ++ (releaseAll (onPublish b ⟨e.msg, false⟩).1 l).2) :=
+  ⟨rfl, rfl⟩
+
+/-- **(d)** On a live connection a PUBREL marks the open exchange with its
+identifier, takes the longest PUBREL-marked prefix `rel` off the session's
+inbound queue, hands the entries of `rel` on (`releaseAll`), and then writes
+exactly one `PUBCOMP id`, which is the *last* output and the only
+acknowledgement among the outputs.  `rel` followed by what stays queued is the
+marked queue, and everything in `rel` is PUBREL-marked.  An identifier without
+an open exchange releases nothing, leaves the queue as it is, and still gets
+its PUBCOMP. -/
+theorem C02_pubrel (b : B) (hI : BInv b) (c : Nat) (hl : b.alive c = true) (id : Nat) :
+    ∃ s, sessOf b c = some s ∧
+      let rest := (q2Acked (q2Ack s.pub2in id)).1
+      let rel := (q2Acked (q2Ack s.pub2in id)).2
+      let b1 := b.setSess { s with pub2in := rest }
+      packet b c (.pubrel id) = ((releaseAll b1 rel).1, (releaseAll b1 rel).2 ++ [.send c (.pubcomp id)]) ∧
+      (packet b c (.pubrel id)).2.getLast? = some (.send c (.pubcomp id)) ∧
+      (packet b c (.pubrel id)).2.filter isAck = [.send c (.pubcomp id)] ∧
+      sessOf (packet b c (.pubrel id)).1 c = some { s with pub2in := rest } ∧
+      rel ++ rest = q2Ack s.pub2in id ∧ (∀ e ∈ rel, e.state = tPUBREL) ∧
+      ((∀ e ∈ s.pub2in, e.id ≠ id) →
+        rel = [] ∧ rest = s.pub2in ∧ (packet b c (.pubrel id)).2 = [.send c (.pubcomp id)]) := by
+  obtain ⟨cn, s, hc, ha, hs, _⟩ := hI.live hl
+  have hq : QInv s.pub2in := by
+    have := hI.queues cn.sess
+    simpa [pub2inOf, hs] using this
+  refine ⟨s, sessOf_eq hc hs, ?_⟩
+  simp only
+  have hp := packet_pubrel hc ha hs id
+  have hf := releaseAll_frame (b.setSess { s with pub2in := (q2Acked (q2Ack s.pub2in id)).1 })
+    (q2Acked (q2Ack s.pub2in id)).2
+  refine ⟨hp, ?_, ?_, ?_, q2Acked_append _, ?_, ?_⟩
+  · rw [hp]; simp
+  · rw [hp]
+    simp only [List.filter_append, filter_isAck_handOvers hf.2, List.nil_append, List.filter_cons,
+      List.filter_nil, isAck, ↓reduceIte]
+  · rw [hp]; exact sessOf_after hc hs _ hf.1
+  · exact q2Acked_rel_marked _
+  · intro hno
+    rw [hp, q2Ack_unknown _ _ hno, q2Acked_headOpen hq]
+    exact ⟨rfl, rfl, rfl⟩
+
+/-- a PUBREC is answered by exactly `[PUBREL id]`; nothing else changes -/
+theorem C02_pubrec (b : B) (hI : BInv b) (c : Nat) (hl : b.alive c = true) (id : Nat) :
+    packet b c (.pubrec id) = (b, [.send c (.pubrel id)]) := by
+  obtain ⟨cn, s, hc, ha, hs, _⟩ := hI.live hl
+  exact packet_pubrec hc ha hs id
+
+/-- exchanges 5 and 6 open (contents [1] and [3]); PUBREL 6 first: PUBCOMP 6 only,
+nothing handed on (5 is older and still open); PUBREL 9 (never opened): PUBCOMP 9
+only; PUBREL 5: both handed on in opening order with their first contents, then
+PUBCOMP 5; a repeated PUBREL 5: PUBCOMP 5 only; PUBREC 3: PUBREL 3 -/
+example :
+    let evs : List Ev :=
+      [.packet 2 (.publish { qos := 2, topic := [116], pktid := 5, payload := [1] }),
+       .packet 2 (.publish { dup := true, qos := 2, topic := [116], pktid := 5, payload := [2] }),
+       .packet 2 (.publish { qos := 2, topic := [116], pktid := 6, payload := [3] }),
+       .packet 2 (.pubrel 6), .packet 2 (.pubrel 9), .packet 2 (.pubrel 5), .packet 2 (.pubrel 5),
+       .packet 2 (.pubrec 3)]
+    (run demo evs).2.drop 3 =
+      [[.send 2 (.pubcomp 6)], [.send 2 (.pubcomp 9)],
+       [.send 1 (.publish { qos := 2, topic := [116], pktid := 5, payload := [1] }),
+        .call 1000 { qos := 1, topic := [116], pktid := 5, payload := [1] },
+        .send 1 (.publish { qos := 2, topic := [116], pktid := 6, payload := [3] }),
+        .call 1000 { qos := 1, topic := [116], pktid := 6, payload := [3] },
+        .send 2 (.pubcomp 5)],
+       [.send 2 (.pubcomp 5)], [.send 2 (.pubrel 3)]] ∧
+    (sessOf (run demo evs).1 2).map (·.pub2in) = some [] := by
+  decide
+
 end Mqtt.Properties.C02
